@@ -240,6 +240,44 @@ fn meshes(rng: &mut Rng, thorough: bool) {
         qs.push(q);
         ds.push(d);
     }
+    // the batch form: indices_in_tol keeps exactly the points whose transformed image passes
+    // project_with_tol, in ascending order - with and without a transform
+    {
+        let mut sorted = ds.clone();
+        sorted.sort_by(|a, b| a.partial_cmp(b).unwrap());
+        let cap = sorted[sorted.len() / 2] * rng.range(0.8, 1.3) + 1e-3;
+        let max_angle = rng.range(0.05, 1.5);
+        let t: Option<engeom::Iso3> = match rng.below(3) {
+            0 => None,
+            1 => Some(gen::iso3(rng, 5.0)),
+            _ => Some(gen::iso3(rng, 200.0)),
+        };
+        // raw points: the queries seen from the other frame, so that their images are spread around the mesh
+        let raw: Vec<Point3> = match &t {
+            None => qs.clone(),
+            Some(t) => qs.iter().map(|q| t.inverse() * q).collect(),
+        };
+        let got = mesh.indices_in_tol(&raw, cap, max_angle, t.as_ref());
+        let want: Vec<usize> = (0..raw.len())
+            .filter(|k| {
+                let img = match &t {
+                    None => raw[*k],
+                    Some(t) => t * raw[*k],
+                };
+                mesh.project_with_tol(&img, cap, max_angle, None).is_some()
+            })
+            .collect();
+        v.require(got == want, "mesh.indices_in_tol_are_the_points_that_project_within_tolerance", || format!("transform {} cap {cap} angle {max_angle}: got {got:?}, per-point projection gives {want:?}", if t.is_some() { "given" } else { "none" }));
+        for k in 0..raw.len() {
+            let a = mesh.project_with_tol(&raw[k], cap, max_angle, t.as_ref()).map(|r| r.1);
+            let img = match &t {
+                None => raw[k],
+                Some(t) => t * raw[k],
+            };
+            let b = mesh.project_with_tol(&img, cap, max_angle, None).map(|r| r.1);
+            v.require(a == b, "mesh.project_with_tol_transform_is_applied_to_the_point", || format!("point {k}: {a:?} vs {b:?}"));
+        }
+    }
     // (interior points of SOLID meshes are outside the property's quantifier: not judged)
     let mut i = Tok::new();
     pts3(&mut i, &vs);
